@@ -44,7 +44,7 @@ HERE=$(cd "$(dirname "$0")/.." && pwd)
 mkdir -p "$S/harness"
 for h in "$HERE"/harness/c/*.c; do
   b=$(basename "$h" .c)
-  if [ "$b" = svcstub ]; then
+  if [ "$b" = svcstub ] || [ "$b" = argdump ]; then
     # stand-alone (started by the daemon as a service program): no sanitizer, no dbus
     if [ ! -x "$S/harness/$b" ] || [ "$h" -nt "$S/harness/$b" ]; then
       gcc -O1 -o "$S/harness/$b" "$h" >>"$LOG" 2>&1 || { echo "HARNESS BUILD FAILED ($b), see $LOG" >&2; exit 2; }
